@@ -43,11 +43,19 @@ class Substitutor(SchemaVisitor[GenericSchema]):
     def formatter(self) -> Formatter:
         return self._formatter
 
+    def _repr(self, value: Any) -> str:
+        try:
+            return repr(value)
+        except (ValueError, RecursionError):
+            # e.g. an int with more digits than sys.get_int_max_str_digits() allows,
+            # or a value nested deeper than the recursion limit
+            return object.__repr__(value)
+
     def _from_native(self, value: Any) -> GenericSchema:
         try:
             return from_native(value)
         except ValueError:
-            raise SubstitutionError(f"Can't convert {value!r} to schema")
+            raise SubstitutionError(f"Can't convert {self._repr(value)} to schema")
 
     def visit(self, schema: GenericSchema, *, value: Any = Nil, **kwargs: Any) -> GenericSchema:
         if substitute_method := getattr(schema, "__d42_substitute__", None):
@@ -198,7 +206,7 @@ class Substitutor(SchemaVisitor[GenericSchema]):
                     keys[key] = (val, is_optional)
             for key, val in value.items():
                 if key not in schema.props.keys:
-                    raise SubstitutionError(f"Unknown key {key!r}")
+                    raise SubstitutionError(f"Unknown key {self._repr(key)}")
 
         return schema.__class__(schema.props.update(keys=keys))
 
@@ -219,7 +227,8 @@ class Substitutor(SchemaVisitor[GenericSchema]):
                 else:
                     types.append(substituted)
         if len(types) == 0:
-            raise SubstitutionError(f"Can't substitute {value!r} into any of the alternatives")
+            raise SubstitutionError(
+                f"Can't substitute {self._repr(value)} into any of the alternatives")
         return schema.__class__(schema.props.update(types=tuple(types)))
 
     def visit_bytes(self, schema: BytesSchema, *, value: Any = Nil, **kwargs: Any) -> BytesSchema:
